@@ -84,6 +84,12 @@ func (l LightClientModule) VerifyMembership(
 	path exported.Path,
 	value []byte,
 ) error {
+	// the localhost client reads the chain's own current state: a proof height beyond the chain's own height
+	// cannot refer to any state of this chain (it would let a relayer claim that a timeout height was reached)
+	if height != nil && height.GT(clienttypes.GetSelfHeight(ctx)) {
+		return errorsmod.Wrapf(ibcerrors.ErrInvalidHeight, "proof height %s is greater than the chain height %s", height, clienttypes.GetSelfHeight(ctx))
+	}
+
 	ibcStore := l.storeService.OpenKVStore(ctx)
 
 	// ensure the proof provided is the expected sentinel localhost client proof
@@ -128,6 +134,12 @@ func (l LightClientModule) VerifyNonMembership(
 	proof []byte,
 	path exported.Path,
 ) error {
+	// the localhost client reads the chain's own current state: a proof height beyond the chain's own height
+	// cannot refer to any state of this chain (it would let a relayer claim that a timeout height was reached)
+	if height != nil && height.GT(clienttypes.GetSelfHeight(ctx)) {
+		return errorsmod.Wrapf(ibcerrors.ErrInvalidHeight, "proof height %s is greater than the chain height %s", height, clienttypes.GetSelfHeight(ctx))
+	}
+
 	ibcStore := l.storeService.OpenKVStore(ctx)
 
 	// ensure the proof provided is the expected sentinel localhost client proof
